@@ -139,7 +139,7 @@ Lemma request_melt_quote_not_ln : forall cfg u d req h msat mpp id,
 Proof.
   intros cfg u d req h msat mpp id. unfold request_melt_quote, fail.
   destruct (negb u); [ret_ok |]. destruct (negb d); [ret_ok |]. destruct ((msat <=? 0) || (two63 <=? msat)); [ret_ok |].
-  apply ADo; intro mq.
+  apply ADo; intro mq. destruct mq as [mq0|]; [|ret_ok]. set (mq := ROk mq0 : resp (GetMintQuoteByHash h)).
   set (internal := match same_invoice mq req with Some _ => true | None => false end).
   assert (Hplan : forall (X : Type) (k : result (bool * Z * Z) -> prog (result X)),
              (forall e, e <> ELn -> allret (errs not_ln) (k (Err e))) ->
